@@ -9,6 +9,20 @@ _TRUST = ("Trusted base: CPython's ast module and the checker code under /verif/
           "http.client behave as documented (A1); extension points at their defaults (A4); no run-time monkey-patching (A5). ")
 
 CLAIMS = {
+    "C01": {
+        "text": ("Decides, for every path of HTTPConnectionPool.urlopen including every exceptional edge out of every call (urllib3 "
+                 "exceptions by inferred raise summaries, an 'external' exception class, and an interrupt), with _get_conn/_put_conn and any "
+                 "other helper that reaches a queue operation inlined: no slot leak, no placeholder put back without a take, no double give, "
+                 "live connections re-enter the queue only after a clean exchange, no use after give, no abandoned socket, refused "
+                 "connections are closed, block=True never connects without a slot. On the response side: release_conn gives at most once; "
+                 "every stdlib read is inside the error catcher; the catcher translates every low-level root into a urllib3 HTTPError, closes "
+                 "before releasing and releases at most once; urlopen hands only urllib3 exceptions to the retry policy; BaseException "
+                 "handlers re-raise; pool close drains and closes; HTTPConnection.close clears the socket on every path. "
+                 "Declined: the N-slot invariant over a whole request *sequence* (follows by induction, stated not checked); byte-level socket state."),
+        "note": _TRUST + "Interrupts are modelled at call sites (A2); close() used as cleanup does not raise (A3). Three genuine defects found by "
+                "these rules are listed as known findings (F1b, F1c, F3); F1a was repaired in /repo.",
+        "technique": "static analysis: path-sensitive typestate (lease automaton) by big-step abstract interpretation of the AST with exceptional outcomes, @contextmanager inlining, relevance slicing",
+    },
     "C18": {
         "text": ("Decides the structural clauses of C18 for all keywords and all call paths: every keyword accepted by the pool and "
                  "connection constructors is a PoolKey field, pool-injected, or rejected by the unfiltered key_class(**context); the very "
@@ -24,4 +38,4 @@ CLAIMS = {
 _PENDING = "check not built yet in this session (static rules designed in DESIGN.md section 5); will be claimed once its rules run clean"
 
 NOT_APPLICABLE = {pid: _PENDING for pid in
-                  ["C01", "C02", "C03", "C04", "C05", "C06", "C07", "C08", "C09", "C10", "C11", "C12", "C13", "C14", "C15", "C16", "C17", "C19", "C20"]}
+                  ["C02", "C03", "C04", "C05", "C06", "C07", "C08", "C09", "C10", "C11", "C12", "C13", "C14", "C15", "C16", "C17", "C19", "C20"]}
